@@ -149,6 +149,7 @@ type Stats struct {
 	ProgHash   uint64            `json:"prog_hash"`
 	SchedHash  uint64            `json:"sched_hash"`
 	TraceHash  uint64            `json:"trace_hash"`
+	ObsHash    uint64            `json:"obs_hash"`
 	Retained   uint64            `json:"retained"`
 	Scribbles  uint64            `json:"scribbles"`
 	EntropyRd  uint64            `json:"entropy_reads"`
